@@ -17,6 +17,11 @@ Qed.
 Lemma last_page_start_cons x l d : l <> [] -> last_page_start (x :: l) d = last_page_start l d.
 Proof. unfold last_page_start. destruct l; [congruence|reflexivity]. Qed.
 
+Lemma dl_loop_none fuel chain sz d script pages :
+  dl_loop fuel chain None sz d script pages =
+  {| dl_ok := true; dl_sizer := sz; dl_db := d; dl_script := script; dl_pages := pages |}.
+Proof. destruct fuel; reflexivity. Qed.
+
 (* the result of the loop started on page p *)
 Definition LoopSpec (chain : list log) (p : page) (d : db) (pages : list (N * N)) (r : dl) : Prop :=
   exists (n : nat) (new : list (N * N)) (next : N),
@@ -76,7 +81,7 @@ Proof.
       * intro Hok. destruct (P8 Hok) as [A B]. split; [discriminate|].
         rewrite last_page_start_cons by exact A. rewrite B. unfold m. lia.
     + (* the last page of the gap *)
-      cbn [dl_loop].
+      rewrite dl_loop_none.
       exists m, [(pg_start p, pg_end p)], (pg_end p + 1). cbn [dl_pages dl_db dl_sizer dl_ok].
       split; [reflexivity|]. split; [reflexivity|]. split; [exact Hsz'|].
       split; [exact Htile1|]. unfold m. split; [lia|]. split; [lia|].
